@@ -6,8 +6,13 @@ TITLE={p['id']:p['title'] for p in props}
 BUILT={
  "C01":("exact evaluator of the source model vs certified exact MILP over the auxiliary variables, at ~120 directed assignments per compiled model","4/C01"),
  "C02":("source objective (exact evaluator) vs optimum of the linear objective over all auxiliary extensions (certified exact MILP); whole-model optimum/status for affine and all-discrete models","4/C02"),
+ "C03":("source text (random layout, aliases, implicit multiplication, where-constants) -> RoocSolver + auto_solver in sacrificial workers, judged by the harness's exact interpreter of the generator's AST over the exhaustively enumerated domains","4/C03"),
  "C04":("certificate re-check of every returned solution against the model it came from, all five solver entry points, in sacrificial workers","4/C04"),
  "C05":("every solver verdict vs certified exact rational LP/MILP oracle (dual / Farkas / ray certificates), CPU-budget watchdog for 'never returns'","4/C05"),
+ "C07":("published ranges and hook-exposed derived ranges (full and truncated propagation) vs exact evaluation at source-feasible assignments and box points; certified true extremes for affine models","4/C07"),
+ "C08":("structural well-formedness monitor on every compiled linear model (regular and hostile sources) + justification check of MissingFiniteBounds errors through hook H1","4/C08"),
+ "C10":("exact evaluator before/after simplify, flatten and flatten+simplify (exhaustive for trees with <= 2 operators at every run, random beyond) + spelling twins compiled and compared by meaning with the certified aux MILP","4/C10"),
+ "C12":("Model::to_string and LinearModel::to_string fed back through type check, transform and linearizer; row-multiset comparison after harmless normalisations, semantic comparison with the certified aux MILP, text fixed-point test","4/C12"),
  "C13":("exact point mapping both ways between model and standard form (vertices and rays under random objectives) + certified optimum/status equality, via guarded accessors","4/C13"),
  "C14":("invariant checker over the recorded pivot history of the real pivot loop (hook H3), every prefix; terminal event vs certified exact oracle","4/C14"),
  "C17":("independent CPLEX-LP reader applied to every exported text, exact comparison with the model","4/C17"),
@@ -18,7 +23,7 @@ man={
  "hooks":{"guard":"cargo feature verif-hooks (packages/rooc/Cargo.toml), off by default",
           "enable":"harness/Cargo.toml depends on rooc by path with features=[\"verif-hooks\"]; ./check rebuilds against /repo's working tree",
           "baseline_off_cmd":"cd /repo/packages/rooc && (cargo nextest run --workspace --no-fail-fast --offline || cargo test --workspace --no-fail-fast --offline)",
-          "source_commits":["21e085b","3ea6608","56548b6"],"add_only":True},
+          "source_commits":["21e085b","3ea6608","56548b6","8527055"],"add_only":True},
  "engines":[{"name":"rv","path":"harness","serves_properties":sorted(BUILT),"kind_free_text":"Rust runtime-monitoring harness: generators, reference models (exact rational LP/MILP with certificates, exact evaluator, LP-format reader), monitors over executions of the real code, sacrificial worker subprocesses with CPU/memory budgets"}],
  "checks":[],
  "notes":"Every check is `./check <id> <tier>`: rebuilds the harness (and rooc with hooks) from /repo's working tree, runs sharded workers, writes evidence/<id>.json, prints KNOWN-FINDING lines for entries of known_findings.json and VIOLATION lines (exit 1) for anything else; exit 2 + INCONCLUSIVE when a run did not reach its coverage thresholds.",
